@@ -5,7 +5,6 @@ import (
 	"fmt"
 	"math/rand"
 	"os"
-	"unicode/utf8"
 )
 
 type c17Case struct {
@@ -14,6 +13,7 @@ type c17Case struct {
 	Keys  [][]byte `json:"keys"`
 	// observations
 	Sweeps [][]dbStep `json:"sweeps,omitempty"` // both flavours for every key: after each rotate/reopen and at the end
+	Agree  []string   `json:"agree,omitempty"`  // flavour disagreements found by the closing probes
 	Fatal  string     `json:"fatal,omitempty"`
 }
 
@@ -32,11 +32,9 @@ func (c *c17Case) Exec() {
 			g := dbStep{Op: "getb", K: k}
 			r.step(&g)
 			sw = append(sw, g)
-			if utf8.Valid(k) {
-				g2 := dbStep{Op: "get", K: k}
-				r.step(&g2)
-				sw = append(sw, g2)
-			}
+			g2 := dbStep{Op: "get", K: k} // Go strings hold arbitrary bytes: the string flavour must agree on them too
+			r.step(&g2)
+			sw = append(sw, g2)
 		}
 		c.Sweeps = append(c.Sweeps, sw)
 	}
@@ -52,6 +50,31 @@ func (c *c17Case) Exec() {
 		}
 	}
 	sweep()
+	// closing probes: for every key (and a few values) the two flavours must give the same verdict
+	c.Agree = nil
+	verdict := func(err error) string {
+		if err == nil {
+			return "accepted"
+		}
+		return "rejected"
+	}
+	for _, k := range c.Keys {
+		for _, v := range [][]byte{[]byte("probe"), {}, []byte("\xff\xfe")} {
+			a, b := verdict(r.db.Put(string(k), string(v))), verdict(r.db.PutBytes(k, v))
+			if a != b {
+				c.Agree = append(c.Agree, fmt.Sprintf("Put(%q,%q) is %s but PutBytes is %s", k, v, a, b))
+			}
+		}
+		a, b := verdict(r.db.Delete(string(k))), verdict(r.db.DeleteBytes(k))
+		if a != b {
+			c.Agree = append(c.Agree, fmt.Sprintf("Delete(%q) is %s but DeleteBytes is %s", k, a, b))
+		}
+		_, e1 := r.db.Get(string(k))
+		_, e2 := r.db.GetBytes(k)
+		if dbErrName(e1) != dbErrName(e2) {
+			c.Agree = append(c.Agree, fmt.Sprintf("Get(%q) gives %q but GetBytes %q", k, dbErrName(e1), dbErrName(e2)))
+		}
+	}
 	if r.db != nil {
 		_ = r.db.Close()
 	}
@@ -60,6 +83,9 @@ func (c *c17Case) Exec() {
 func (c *c17Case) Oracle() (bool, string) {
 	if c.Fatal != "" {
 		return false, c.Fatal
+	}
+	if len(c.Agree) > 0 {
+		return false, "the string and the byte flavour disagree: " + c.Agree[0]
 	}
 	ref := map[string][]byte{}
 	si := 0
@@ -167,22 +193,16 @@ func genC17(r *rand.Rand, tier string) []Case {
 				if r.Intn(10) == 0 {
 					s.KNil, s.K = s.Op == "putb", []byte{}
 				}
-				if s.Op == "put" && (!utf8.Valid(s.K) || !utf8.Valid(s.V)) {
-					s.Op = "putb"
-				}
+
 			case x < 12:
 				s.Op = []string{"del", "delb"}[r.Intn(2)]
-				if s.Op == "del" && !utf8.Valid(s.K) {
-					s.Op = "delb"
-				}
+
 				if r.Intn(8) == 0 && s.Op == "delb" {
 					s.KNil, s.K = true, nil
 				}
 			case x < 15:
 				s.Op = []string{"get", "getb"}[r.Intn(2)]
-				if s.Op == "get" && !utf8.Valid(s.K) {
-					s.Op = "getb"
-				}
+
 			case x < 18:
 				s = dbStep{Op: "rotate"}
 			default:
@@ -196,19 +216,91 @@ func genC17(r *rand.Rand, tier string) []Case {
 	return cases
 }
 
+// C17 also has a crash part: kill images taken around rejected calls (same machinery as C02)
+type c17Any struct {
+	API   *c17Case `json:"api,omitempty"`
+	Crash *c02Case `json:"crash,omitempty"`
+}
+
+func (c *c17Any) inner() Case {
+	if c.API != nil {
+		return c.API
+	}
+	return c.Crash
+}
+func (c *c17Any) Exec()                  { c.inner().Exec() }
+func (c *c17Any) Oracle() (bool, string) { return c.inner().Oracle() }
+func (c *c17Any) Sx() string             { return c.inner().Sx() }
+func (c *c17Any) Nontrivial() bool       { return c.inner().Nontrivial() }
+func (c *c17Any) Kind() string {
+	if c.Crash != nil {
+		return "crash/" + c.Crash.Kind()
+	}
+	return c.API.Kind()
+}
+func (c *c17Any) Evals() int {
+	if c.Crash != nil {
+		return c.Crash.Evals()
+	}
+	return 1
+}
+
+// sessions in which rejected calls (nil / empty values and keys through the byte API) are mixed with
+// accepted ones; every kill image must re-open and show no trace of the rejected calls
+func genC17Crash(r *rand.Rand) *c02Case {
+	keys := [][]byte{[]byte("a"), []byte("b"), []byte("c")}
+	c := &c02Case{Keys: keys}
+	c.Opts = dbOpts{MemstoreBytes: 1 << 30, Threshold: 10, MaxSize: 5 << 30, RatioPct: 100, WBuf: 4096, RBuf: 4096}
+	for j := 0; j < 10+r.Intn(6); j++ {
+		k := keys[r.Intn(len(keys))]
+		switch r.Intn(6) {
+		case 0:
+			c.Steps = append(c.Steps, dbStep{Op: "putb", K: k, V: []byte{}, VNil: true})
+		case 1:
+			c.Steps = append(c.Steps, dbStep{Op: "putb", K: k, V: []byte{}})
+		case 2:
+			c.Steps = append(c.Steps, dbStep{Op: "putb", K: []byte{}, V: []byte("v")})
+		case 3:
+			c.Steps = append(c.Steps, dbStep{Op: "rotate"})
+		case 4:
+			c.Steps = append(c.Steps, dbStep{Op: "del", K: k})
+		default:
+			c.Steps = append(c.Steps, dbStep{Op: "put", K: k, V: []byte(fmt.Sprintf("v%d", j))})
+		}
+	}
+	return c
+}
+
 func init() {
 	register(&Prop{
 		ID: "C17", Num: 17,
-		Gen: genC17,
-		New: func() Case { return &c17Case{} },
-		Rule: "programs mixing accepted and rejected calls through both API flavours: keys/values nil, empty, non-UTF-8, 64 KiB and longer, marker bytes, the empty key; observed directly, after forced rotation+flush, after clean reopen (crash images: see C02 stage of this check). Non-trivial: >=1 rejected and >=2 accepted puts.",
+		Gen: func(r *rand.Rand, tier string) []Case {
+			var out []Case
+			for _, c := range genC17(r, tier) {
+				out = append(out, &c17Any{API: c.(*c17Case)})
+			}
+			n := 2
+			if tier == "thorough" {
+				n = 30
+			}
+			for i := 0; i < n; i++ {
+				out = append(out, &c17Any{Crash: genC17Crash(r)})
+			}
+			return out
+		},
+		New: func() Case { return &c17Any{} },
+		Rule: "programs mixing accepted and rejected calls through both API flavours: keys/values nil, empty, non-UTF-8, 64 KiB and longer, marker bytes, the empty key; observed directly, after forced rotation+flush, after clean reopen; plus sessions with rejected calls run under strace whose every kill image is re-opened (C02 machinery). Non-trivial: >=1 rejected and >=2 accepted puts.",
 		Shrink: func(cs Case) []Case {
-			c := cs.(*c17Case)
+			a := cs.(*c17Any)
+			if a.API == nil {
+				return nil
+			}
+			c := a.API
 			var out []Case
 			for i := range c.Steps {
 				n := &c17Case{Opts: c.Opts, Keys: c.Keys}
 				n.Steps = append(append([]dbStep{}, c.Steps[:i]...), c.Steps[i+1:]...)
-				out = append(out, n)
+				out = append(out, &c17Any{API: n})
 			}
 			return out
 		},
